@@ -89,6 +89,9 @@ func bedBatch(t *testing.T, name string, tests string) {
 	var progs []BedProgram
 	for i := 0; i < nprog; i++ {
 		pc := gen.Example(seed*1000 + i)
+		if i%2 == 1 {
+			addTwinThrower(pc.P)
+		}
 		progs = append(progs, BedProgram{P: pc.P, Lex: pc.Lex, Slim: i%3 == 2})
 	}
 	dir, cleanup := scratchDir("bed")
@@ -223,3 +226,31 @@ func TestBedC08(t *testing.T) { bedBatch(t, "c08.bed", "TestBindings|TestScopes"
 // C07: generated publishers and subscribers of generated scopes, executed (exactly-once delivery of
 // every published payload to the subscriber of the same topic, nothing to others).
 func TestBedC07(t *testing.T) { bedBatch(t, "c07.bed", "TestBindings|TestScopes") }
+
+// addTwinThrower gives every other program of a batch a method that declares two exceptions of
+// the same name, one from an included file and one of its own (rare under the generator's
+// own odds with only a few programs per batch).
+func addTwinThrower(p *Program) {
+	root := p.Root()
+	ri := len(p.Files) - 1
+	if len(root.Includes) == 0 {
+		return
+	}
+	inc := root.Includes[0]
+	for _, f := range []*File{p.Files[inc], root} {
+		for _, d := range f.Decls {
+			if NormName(d.Name) == NormName("ZzTwinError") || NormName(d.Name) == NormName("ZzTwinThrower") {
+				return
+			}
+		}
+	}
+	p.Files[inc].Decls = append(p.Files[inc].Decls, &Decl{Kind: "exception", Name: "ZzTwinError",
+		Fields: []Field{{ID: 1, Name: "why", Type: &Type{Kind: "base", Name: "string"}}}})
+	root.Decls = append(root.Decls,
+		&Decl{Kind: "exception", Name: "ZzTwinError", Fields: []Field{{ID: 1, Name: "code", Type: &Type{Kind: "base", Name: "i32"}}, {ID: 2, Name: "detail", Type: &Type{Kind: "base", Name: "string"}}}},
+		&Decl{Kind: "service", Name: "ZzTwinThrower", Methods: []Method{{Name: "zzRaise", Ret: &Type{Kind: "base", Name: "i32"},
+			Args: []Field{{ID: 1, Name: "which", Type: &Type{Kind: "base", Name: "i32"}}},
+			Throws: []Field{
+				{ID: 1, Name: "fromInclude", Type: &Type{Kind: "ref", Name: "ZzTwinError", File: inc}},
+				{ID: 2, Name: "ofThisFile", Type: &Type{Kind: "ref", Name: "ZzTwinError", File: ri}}}}}})
+}
